@@ -186,6 +186,27 @@ Theorem C07_response_segments_aligned :
 Proof. exact response_aligned. Qed.
 Print Assumptions C07_response_segments_aligned.
 
+(* ---- codec options ----------------------------------------------------------------------------- *)
+
+(* Every decoder option (LongType, RealType, MapType, StructType, ListType) reaches the decoder of the codec it was
+   given to: the round-trip theorems above state the decoded headers, arguments and results as
+   [convert (s_dec so) ...] resp. [convert (c_dec co) ...], i.e. at the configured options; and the codecs
+   consult the io decoder at no other options: two io decoders that agree at the client's (service's) configured
+   options cannot be told apart through the client (service) codec. *)
+Theorem C07_client_options_reach_decoder : forall io1 io2 h1 h2 zero co rts resp,
+  (forall s t w, io1 (c_dec co) s t w = io2 (c_dec co) s t w) ->
+  (forall s w, h1 (c_dec co) s w = h2 (c_dec co) s w) ->
+  client_decode io1 h1 zero co rts resp = client_decode io2 h2 zero co rts resp.
+Proof. exact client_decode_uses_its_options. Qed.
+Print Assumptions C07_client_options_reach_decoder.
+
+Theorem C07_service_options_reach_decoder : forall lower io1 io2 h1 h2 so svc req,
+  (forall s t w, io1 (s_dec so) s t w = io2 (s_dec so) s t w) ->
+  (forall s w, h1 (s_dec so) s w = h2 (s_dec so) s w) ->
+  service_decode lower io1 h1 so svc req = service_decode lower io2 h2 so svc req.
+Proof. exact service_decode_uses_its_options. Qed.
+Print Assumptions C07_service_options_reach_decoder.
+
 (* ---- JSON-RPC ---------------------------------------------------------------------------------- *)
 
 (* The envelope: id = (counter+1) & 0x7fffffff, method, params, headers.  The JSON text is an oracle:
